@@ -88,3 +88,56 @@ def Mac8(self, a="d", b="d"):
     spec = SPEC_QUEUE.pop(0)
     made = build_level(self, spec, {"A": a, "B": b})
     return made[spec["out"]]
+
+
+# --------------------------------------------------------------------------- a loop whose body is assembled during the run
+# `Sweep8` holds a for-loop over what `Items8` returns. With `as_set` the loop gets something it can take the length
+# of but cannot index: the nodes that pick the items out (injected into the loop, run as they are created) raise
+# while the loop assembles its body -- nodes that fail during a run of the outermost graph while their own parent
+# has not started running.
+
+
+def Items8(a="d", as_set=False):
+    nodes._record(28, a, as_set, "d")
+    items = [("i0", a), ("i1", a)]
+    return set(items) if as_set else items
+
+
+def Body8(x="d"):
+    nodes._record(29, x, "d", "d")
+    return ("g", x)
+
+
+def Fold8(xs=()):
+    nodes._record(30, tuple(xs), "d", "d")
+    return ("s", *xs)
+
+
+def _wrap(fn, out):
+    from pyiron_workflow import as_function_node
+
+    fn.__module__ = __name__
+    return as_function_node(out, validate_output_labels=False)(fn)
+
+
+Items8 = _wrap(Items8, "items")
+Body8 = _wrap(Body8, "y")
+Fold8 = _wrap(Fold8, "s")
+
+
+@as_macro_node("o", validate_output_labels=False)
+def Sweep8(self, a="d", as_set=False):
+    from pyiron_workflow.nodes.for_loop import for_node
+
+    self.items = Items8(a, as_set)
+    self.loop = for_node(Body8, iter_on=("x",), x=self.items, output_as_dataframe=False)
+    self.fold = Fold8(self.loop.outputs.y)
+    return self.fold
+
+
+@as_macro_node("o", validate_output_labels=False)
+def Outer8(self, a="d", as_set=False):
+    self.pre = nodes.term_node(26, label="pre", a=a)
+    self.sweep = Sweep8(self.pre, as_set)
+    self.post = nodes.term_node(27, label="post", a=self.sweep)
+    return self.post
